@@ -343,7 +343,7 @@ func init() {
 		}
 		n := 6000
 		if thorough() {
-			n = 80000
+			n = 300000
 		}
 		var jobs []func()
 		for i := 0; i < n; i++ {
@@ -374,7 +374,7 @@ func init() {
 		// handler: every type
 		reps := 12
 		if thorough() {
-			reps = 300
+			reps = 1000
 		}
 		tkeys := append([]string{}, O.TypeKeys...)
 		sort.Strings(tkeys)
@@ -446,7 +446,7 @@ func init() {
 		// can reach it); both responses are judged like any other
 		nInter := 600
 		if thorough() {
-			nInter = 20000
+			nInter = 100000
 		}
 		for i := 0; i < nInter; i++ {
 			i := i
